@@ -32,6 +32,11 @@ OUT_OF_SCOPE = {
     "C18_u": "written against C18 but lives in the server's connection callback (connections registered by peer address, which is '' for every Unix client): caught by the C19 check, the C18 harness drives sessions directly",
     "C01_v": "needs a user function that returns a hand-written collections.abc.Coroutine object without __qualname__ instead of a coroutine: workers here return real coroutines (or, as a fault, no coroutine at all); not generated",
     "C06_v": "not a violation as the oracle reads the statement: with several offending ids of different kinds, *which* of the applicable errors is raised is left open (DESIGN 6, set-valued oracles); nothing is cancelled in either version",
+    "C01_x": "needs cancel_group() of a group issued from that group's own argument iterator - the re-entrant case the statements exclude (DESIGN 6), like C02_o",
+    "C02_x": "needs a user function that returns a hand-written collections.abc.Coroutine object instead of a coroutine (like C01_v); not generated",
+    "C12_x": "needs a user cancel callback that itself raises CancelledError (raised, not delivered): user code raising CancelledError inside callbacks is not generated (it is for argument iterators and worker bodies)",
+    "C15_x": "only reachable through the control interface ('pool-size -0.5' converted leniently): caught by the C18 check ('pool-size 1.5' must be refused, the pool untouched)",
+    "C19_x": "written against C19 but is the session's reply buffer (help and error replies empty from the second command on): caught by the C16 and C18 checks; the C19 clients send property reads only",
     "C04_j": "needs pool_size to be reassigned while a spawner waits for room - the territory of the open finding D4 (on the unchanged tree such a waiter also stays blocked after the assignment), where completeness is not demanded",
 }
 
@@ -48,7 +53,7 @@ def one(name: str, all_checks: bool) -> dict:
         res = {"error": (r.stdout + r.stderr)[-500:]}
     meta = {
         "id": name, "property": am["property"], "summary": am.get("summary"), "needs": am.get("needs"), "files": am.get("files"),
-        "origin": "written by an independent sub-agent that saw only the property text and a scratch worktree (round %d)" % {"a": 1, "b": 1, "c": 2, "d": 2, "e": 3, "f": 4, "g": 5, "h": 6, "i": 6, "j": 7, "k": 8, "l": 9, "m": 10, "n": 11, "o": 12, "p": 13, "q": 14, "r": 15, "s": 16, "t": 17, "u": 18, "v": 19, "w": 20}.get(name[-1], 0),
+        "origin": "written by an independent sub-agent that saw only the property text and a scratch worktree (round %d)" % {"a": 1, "b": 1, "c": 2, "d": 2, "e": 3, "f": 4, "g": 5, "h": 6, "i": 6, "j": 7, "k": 8, "l": 9, "m": 10, "n": 11, "o": 12, "p": 13, "q": 14, "r": 15, "s": 16, "t": 17, "u": 18, "v": 19, "w": 20, "x": 21}.get(name[-1], 0),
         "verified": {"how": "./selftest seeded/%s %s  (scratch copy of /repo + patch.diff; repository test suite; demo.py against the changed and the unchanged source; checks' quick tier with VERIF_REPO=<copy>)" % (name, " ".join(checks)),
                      "patch_applies": res.get("patch_applies"), "suite": res.get("suite"),
                      "demo_exit_with_change": res.get("demo_with"), "demo_exit_without_change": res.get("demo_without")},
